@@ -100,3 +100,58 @@ add("C03",
                     if name[i] == split_character:
                         break
                 short_name = name[:i]""", """                short_name = name[: name.rindex(split_character)]"""), None))
+
+PT = "spydrnet/util/patterns.py"
+add("C13",
+    Mutant("Q11 compiled patterns cached under the pattern text alone (seeded C13-w6A)",
+           [(PT, "import fnmatch\nimport re\n", """import fnmatch
+import re
+
+_compiled_patterns = {}
+
+
+def _compile_pattern(pattern, is_case):
+    regex = _compiled_patterns.get(pattern)
+    if regex is None:
+        regex = re.compile(pattern, flags=0 if is_case else re.IGNORECASE)
+        _compiled_patterns[pattern] = regex
+    return regex
+"""),
+            (PT, "            if re.fullmatch(pattern, value, flags=0 if is_case else re.IGNORECASE):", "            if _compile_pattern(pattern, is_case).fullmatch(value):")],
+           "Q11|"),
+    Mutant("twin: the cache keyed by pattern and case flag",
+           [(PT, "import fnmatch\nimport re\n", """import fnmatch
+import re
+
+_compiled_patterns = {}
+
+
+def _compile_pattern(pattern, is_case):
+    regex = _compiled_patterns.get((pattern, is_case))
+    if regex is None:
+        regex = re.compile(pattern, flags=0 if is_case else re.IGNORECASE)
+        _compiled_patterns[(pattern, is_case)] = regex
+    return regex
+"""),
+            (PT, "            if re.fullmatch(pattern, value, flags=0 if is_case else re.IGNORECASE):", "            if _compile_pattern(pattern, is_case).fullmatch(value):")],
+           None))
+
+_TS_OLD_HEAD = """        def iterate(o):
+            nonlocal visited
+            nonlocal output_list
+            nonlocal get_dependents
+            stack = [o]
+"""
+_TS_NEW_HEAD = """        def iterate(stack):
+            nonlocal visited
+            nonlocal output_list
+            nonlocal get_dependents
+"""
+_TS_OLD_DRIVER = """        for o in list_of_objects:
+            if o not in visited:
+                iterate(o)
+"""
+for _prop, _rid in (("C03", "B6|"), ("C16", "W6|")):
+    add(_prop,
+        Mutant("%s the dependency sort starts from the whole input on one stack (seeded C16-w6B)" % _rid[:2],
+               [(EC, _TS_OLD_HEAD, _TS_NEW_HEAD), (EC, _TS_OLD_DRIVER, "        iterate(list(list_of_objects))\n")], "stack seeded with many roots"))
